@@ -1,15 +1,17 @@
 CHECK = {
     "builds": [
-        {"mode": "inpkg", "pkg": "model", "files": ["c20_common_test.go", "c20_bpe_test.go", "c20_spm_test.go", "c20_firstuse_test.go"]},
+        {"mode": "inpkg", "pkg": "model", "files": ["c20_common_test.go", "c20_bpe_test.go", "c20_spm_test.go", "c20_firstuse_test.go", "c20_fuzz_test.go"]},
         # the same package under the race detector, for the concurrent-first-use target only
         {"mode": "inpkg", "pkg": "model", "files": ["c20_common_test.go", "c20_bpe_test.go", "c20_spm_test.go", "c20_firstuse_test.go"], "race": True},
+        # fuzz coverage instrumentation, for the native fuzz target of the thorough tier
+        {"mode": "inpkg", "pkg": "model", "files": ["c20_common_test.go", "c20_bpe_test.go", "c20_spm_test.go", "c20_firstuse_test.go", "c20_fuzz_test.go"], "fuzz": "FuzzC20Text"},
     ],
     "env": {"GORACE": "halt_on_error=1"},
     "level": "exploration",
     "engine": "tokenizer-roundtrip",
     "technique": "property-based round-trip testing (rapid, shrinking) of BytePairEncoding and SentencePieceModel "
                  "Encode/Decode over generated multi-script text, against the shipped llama 3.2 vocabulary and "
-                 "against byte-complete vocabularies generated per case",
+                 "against byte-complete vocabularies generated per case; thorough tier additionally runs Go's native coverage-guided fuzzer (go test -fuzz) against the same oracle over arbitrary valid UTF-8 strings",
     "level_text": "Randomised exploration of the text space (and, for two of three targets, of the vocabulary space) with an "
                   "exact oracle: Decode(Encode(s,false)) == s, ids inside the vocabulary, every special-token literal encoded "
                   "to its id at its place (metamorphic: parts between literals encoded separately), Encode(s,true) wrapped per "
@@ -24,17 +26,19 @@ CHECK = {
     "targets": [
         {"name": "TestC20BPELlama",
          "quick": {"cases": 12000, "shards": 2, "soft_s": 40},
-         "thorough": {"cases": 600000, "shards": 6, "soft_s": 330}},
+         "thorough": {"cases": 600000, "shards": 5, "soft_s": 330}},
         {"name": "TestC20BPESynth",
          "quick": {"cases": 5000, "shards": 2, "soft_s": 40},
-         "thorough": {"cases": 250000, "shards": 5, "soft_s": 330}},
+         "thorough": {"cases": 250000, "shards": 4, "soft_s": 330}},
         {"name": "TestC20SPM",
          "quick": {"cases": 10000, "shards": 2, "soft_s": 40},
-         "thorough": {"cases": 500000, "shards": 5, "soft_s": 330}},
+         "thorough": {"cases": 500000, "shards": 4, "soft_s": 330}},
         # several callers make the first Encode calls on a fresh vocabulary at the same moment (race detector build)
         {"name": "TestC20FirstUse", "build": 1,
          "quick": {"cases": 1500, "shards": 1, "soft_s": 30},
          "thorough": {"cases": 60000, "shards": 2, "soft_s": 300}},
+        # native coverage-guided fuzzing, thorough tier only (cannot be pinned to VERIF_SEED; the saved input is the reproducible unit)
+        {"name": "FuzzC20Text", "build": 2, "kind": "fuzz", "thorough": {"fuzztime": "150s", "workers": 4, "hard_s": 600}},
     ],
     "floors": {"multibyte": 0.4, "whitespace_run": 0.15, "special_literal": 0.2, "ascii_punct": 0.3,
                "contraction": 0.05, "crlf": 0.03, "combining_mark": 0.05, "emoji_zwj": 0.02, "cjk": 0.05,
